@@ -9,7 +9,7 @@ import (
 
 func baseOpts() GenOpts {
 	o := GenOpts{MaxUnits: 10, MinUnits: 1, MaxFiles: 3, MaxStmts: 3, MaxRows: 4, MaxCols: 10, MaxTables: 3,
-		IgnorableGap: 6, Rare: true}
+		IgnorableGap: 6, Rare: true, HeaderFlags: true}
 	o.UnitWeights = [numUnitKinds]int{uTxXID: 6, uTxCommit: 3, uDDL: 2, uAutoRows: 2, uStmtDML: 1,
 		uTxRollback: 1, uUnknownStmt: 1, uIgnorable: 1, uRotate: 1}
 	o.Prof = genProfile{MaxStr: 24}
